@@ -66,6 +66,7 @@ fn main() {
         "C09" => rig::props::c09::main(tier, replay),
         "C10" => rig::props::c10::main(tier, replay),
         "C18" => rig::props::c18::main(tier, replay),
+        "C13" => rig::props::c13::main(tier, replay),
         "selftest" => rig::props::c03::selftest(),
         _ => {
             eprintln!("unknown property {}", prop);
